@@ -1,7 +1,8 @@
 #!/bin/bash
+# usage: tools/matrix.sh [glob]   (default: every seeded change)
 # Cross-detection matrix: every registered quick check against every seeded change (scratch worktrees only).
 cd "$(dirname "$0")/.." || exit 2
-for d in seeded/C*; do
+for d in seeded/${1:-*}; do
   id=$(basename $d)
   tools/mutant.sh detect $d/patch.diff 2>&1 | sed "s/^/$id /"
 done
